@@ -24,7 +24,11 @@ CONSTANTS Configs,        \* set of records [n, block, retries, preload, release
           Disposals,      \* how the caller may dispose of a returned response
           MaxHeld,        \* responses the caller may still hold when it issues the next request
           Cuts,           \* TRUE: the server may cut one idle pooled connection between steps
-          KnownDefects    \* subset of {"D14"} \cup design mutants {"M_CloseNoRelease", ...}
+          KnownDefects,   \* subset of {"D14"} \cup design mutants {"M_CloseNoRelease", ...}
+          TreeTraits      \* behaviours that differ between revisions of the tree and do not matter to the Rules;
+                          \* the check detects them on the tree under test (see vh/c01.py: detect_traits):
+                          \* "ReleaseLeavesUnfinishedOpen": release_conn() of a response whose body was not read
+                          \*   to the end puts the connection back as it is (later revisions close it first)
 
 NONE == 0
 FalseV == 0 - 9           \* Retry.total = False
@@ -66,7 +70,7 @@ VARIABLES cfg,     \* configuration of this history (immutable)
 vars == <<cfg, queue, conns, socks, resp, rof, pc, cur, plan, att, ret, err, clean, rel, pend, rcur, nd, inj,
           outs, hist, ncut>>
 
-Has(d) == d \in KnownDefects
+Has(d) == d \in KnownDefects \cup TreeTraits
 
 World == [q |-> queue, cn |-> conns, sk |-> socks, rs |-> resp, full |-> FALSE]
 
@@ -87,9 +91,12 @@ WPut(w, c) ==
 
 \* HTTPResponse.release_conn()
 WRelease(w, k) ==
-    IF w.rs[k].conn = NONE THEN w
-    ELSE IF Has("M_ReleaseKeepsConn") THEN WPut(w, w.rs[k].conn)
-    ELSE WPut([w EXCEPT !.rs[k].conn = NONE], w.rs[k].conn)
+    IF w.rs[k].conn = NONE THEN w ELSE
+    LET c  == w.rs[k].conn
+        \* body not read to the end: the connection is closed before it goes back (unless the tree predates that)
+        w0 == IF w.rs[k].fp /\ ~Has("ReleaseLeavesUnfinishedOpen") THEN WClose(w, c) ELSE w IN
+    IF Has("M_ReleaseKeepsConn") THEN WPut(w0, c)
+    ELSE WPut([w0 EXCEPT !.rs[k].conn = NONE], c)
 
 Dirty(w, s) == w.sk[s].cut \/ \E k \in 1..Len(w.rs) : w.rs[k].sock = s /\ w.rs[k].ker
 Stale(w, c) == w.cn[c].unfin # 0 /\ w.rs[w.cn[c].unfin].fp
@@ -161,7 +168,7 @@ Init == /\ cfg \in Configs
         /\ clean = FALSE /\ rel = FALSE /\ pend = "" /\ rcur = 0 /\ nd = 0 /\ inj = FALSE
         /\ outs = <<>> /\ hist = <<>> /\ ncut = 0
 
-Step(op, id, how, out) == [op |-> op, id |-> id, atts |-> att, how |-> how, out |-> out, dials |-> nd]
+Step(op, id, how, out) == [op |-> op, id |-> id, atts |-> att, how |-> how, out |-> out, dials |-> nd, dev |-> ""]
 
 (* ---- caller starts request number Len(rof)+1 ---- *)
 StartReq ==
@@ -353,7 +360,9 @@ DisposeResp ==
             /\ resp' = [x.w.rs EXCEPT ![k].live = FALSE]
             /\ outs' = Append(outs, [res |-> IF out = "ok" THEN "response" ELSE "raised",
                                      cls |-> IF out = "ok" THEN "none" ELSE ClassOf(out), inj |-> out = "Interrupt"])
-            /\ hist' = Append(hist, [op |-> "disp", id |-> i, atts |-> <<>>, how |-> how, out |-> out, dials |-> 0])
+            \* dev: this step passes through the point where the recorded deviation D14 differs from the design
+            /\ hist' = Append(hist, [op |-> "disp", id |-> i, atts |-> <<>>, how |-> how, out |-> out, dials |-> 0,
+                                     dev |-> IF how = "stream" /\ ~resp[k].fp /\ resp[k].conn # NONE THEN "D14" ELSE ""])
     /\ UNCHANGED <<cfg, rof, pc, cur, plan, att, ret, err, clean, rel, pend, rcur, nd, inj, ncut>>
 
 (* ---- environment: the server cuts an idle pooled keep-alive connection ---- *)
@@ -364,7 +373,7 @@ PeerCut ==
          LET s == conns[PooledOpen[k]].sock IN
          /\ ~socks[s].cut
          /\ socks' = [socks EXCEPT ![s].cut = TRUE]
-         /\ hist' = Append(hist, [op |-> "cut", id |-> k, atts |-> <<>>, how |-> "", out |-> "", dials |-> 0])
+         /\ hist' = Append(hist, [op |-> "cut", id |-> k, atts |-> <<>>, how |-> "", out |-> "", dials |-> 0, dev |-> ""])
     /\ ncut' = 1
     /\ UNCHANGED <<cfg, queue, conns, resp, rof, pc, cur, plan, att, ret, err, clean, rel, pend, rcur, nd, inj, outs>>
 
